@@ -17,6 +17,7 @@ import tempfile
 
 VERIF = os.path.dirname(os.path.dirname(os.path.abspath(__file__)))
 REPO = "/repo"
+PREFIX = ""
 PY = "/venv/bin/python"
 
 
@@ -29,7 +30,7 @@ def confirm(args):
     pid, mk, src = args
     wt = tempfile.mkdtemp(prefix=f"seed-{pid}-{mk}-", dir="/tmp")
     os.rmdir(wt)
-    res = {"id": f"{pid}-{mk}", "property": pid, "ok": False}
+    res = {"id": f"{pid}-{PREFIX}{mk[1:]}" if PREFIX else f"{pid}-{mk}", "property": pid, "ok": False}
     try:
         rc, out = sh(["git", "-C", REPO, "worktree", "add", "--detach", wt, "HEAD", "-q"])
         if rc:
@@ -68,11 +69,15 @@ def confirm(args):
 
 
 def main():
+    global PREFIX
     root = sys.argv[1]
+    if "--prefix" in sys.argv:
+        PREFIX = sys.argv[sys.argv.index("--prefix") + 1]
+    only = [a for a in sys.argv[2:] if a.startswith("C")]
     jobs = []
     for pid in sorted(os.listdir(root)):
         out = os.path.join(root, pid, "_out")
-        if not os.path.isdir(out):
+        if not os.path.isdir(out) or (only and pid not in only):
             continue
         for mk in sorted(os.listdir(out)):
             src = os.path.join(out, mk)
